@@ -301,6 +301,11 @@ def run(repo: Repo, rep: Report, tier: str) -> None:
         dumped = norm(dumps[0].args[0]) if dumps[0].args else "?"
         stores = [n for n in own_nodes(upd.node) if isinstance(n, ast.Assign) and isinstance(n.targets[0], ast.Subscript) and norm(n.targets[0].value) == reg]
         key_ok = [s for s in stores if isinstance(s.targets[0].slice, ast.Name) and s.targets[0].slice.id in upd.params]
+        # `<reg>.update({<client key>: ...})` overwrites the entry just like item assignment (setdefault would NOT: it keeps a stale entry)
+        for c in calls_in(upd.node):
+            if isinstance(c.func, ast.Attribute) and c.func.attr == "update" and norm(c.func.value) == reg and len(c.args) == 1 and isinstance(c.args[0], ast.Dict) \
+                    and len(c.args[0].keys) == 1 and isinstance(c.args[0].keys[0], ast.Name) and c.args[0].keys[0].id in upd.params:
+                key_ok.append(c)  # type: ignore[arg-type]
         rebinds = [n for n in own_nodes(upd.node) if isinstance(n, ast.Assign) and norm(n.targets[0]) == reg and n is not loads[0]]
         fresh_after = [n for n in rebinds if n.lineno > loads[0].lineno]
         if dumped == reg and key_ok and not fresh_after:
@@ -312,15 +317,28 @@ def run(repo: Repo, rep: Report, tier: str) -> None:
         # the load must be guarded only by the existence of the file
         cfg = CFG(upd.node)
         # every return is the union over all values
+        from sa.match import Locals as _Locals
+
+        UL = _Locals(upd.node)
+
+        def over_all(e: ast.AST) -> bool:
+            """the expression ranges over every entry of the registry: contains <reg>.values() / <reg>.items() (not a single lookup)"""
+            return any(isinstance(x, ast.Call) and isinstance(x.func, ast.Attribute) and x.func.attr in ("values", "items") and norm(x.func.value) == reg and not x.args
+                       for x in ast.walk(e))
+
         union_vars: Set[str] = set()
         for lp in [n for n in own_nodes(upd.node) if isinstance(n, ast.For)]:
-            if norm(lp.iter) == f"{reg}.values()" and isinstance(lp.target, ast.Name):
+            if over_all(UL.inline(lp.iter)):
+                tnames = {x.id for x in ast.walk(lp.target) if isinstance(x, ast.Name)}
                 for c in calls_in(lp):
-                    if isinstance(c.func, ast.Attribute) and c.func.attr in ("update", "extend", "add") and isinstance(c.func.value, ast.Name) \
-                            and c.args and any(isinstance(x, ast.Name) and x.id == lp.target.id for x in ast.walk(c.args[0])):
+                    if isinstance(c.func, ast.Attribute) and c.func.attr in ("update", "extend", "add", "append") and isinstance(c.func.value, ast.Name) \
+                            and c.args and any(isinstance(x, ast.Name) and x.id in tnames for x in ast.walk(c.args[0])):
                         union_vars.add(c.func.value.id)
+                for a in [x for x in ast.walk(lp) if isinstance(x, ast.AugAssign) and isinstance(x.target, ast.Name)]:
+                    if any(isinstance(x, ast.Name) and x.id in tnames for x in ast.walk(a.value)):
+                        union_vars.add(a.target.id)
         for n in own_nodes(upd.node):
-            if isinstance(n, ast.Assign) and isinstance(n.targets[0], ast.Name) and f"{reg}.values()" in norm(n.value):
+            if isinstance(n, ast.Assign) and isinstance(n.targets[0], ast.Name) and over_all(n.value):
                 union_vars.add(n.targets[0].id)
         rets = [n for n in own_nodes(upd.node) if isinstance(n, ast.Return)]
         rep.require(bool(rets), "R11.1: _update_registry has no return")
@@ -332,12 +350,12 @@ def run(repo: Repo, rep: Report, tier: str) -> None:
             for nm in list(names):
                 for d in prov.defs.get(nm, []):
                     derived |= {x.id for x in ast.walk(d) if isinstance(x, ast.Name)}
-            subr = f"{sub0} return L{r.lineno} `{norm(r)[:50]}`"
-            if derived & union_vars:
+            subr = f"{sub0} return value"
+            if derived & union_vars or (r.value is not None and over_all(r.value)):
                 # and it must come after the write-back on every path
                 rep.ok("R11.1", subr, f"returns the union over all clients ({sorted(derived & union_vars)})", upd.loc(r))
             else:
-                rep.violation("R11.1", subr, f"{upd.fq}|return-not-union|{norm(r)}",
+                rep.violation("R11.1", subr, f"{upd.fq}|return-not-union",
                               f"`{norm(r)}` does not return the union over all registered clients: exception_aliases.py is regenerated "
                               "without the classes other clients import", upd.loc(r))
         # the dump happens on every path to a return (the registry always records this client)
@@ -358,13 +376,17 @@ def run(repo: Repo, rep: Report, tier: str) -> None:
 
     # registry key at the call sites in the generator
     gen = repo.func("generator.client_generator:ClientGenerator.generate")
+    from sa.match import Locals as _Locals2
+
+    GL = _Locals2(gen.node)
     n_sites = 0
     for c in calls_in(gen.node):
-        if isinstance(c.func, ast.Attribute) and c.func.attr == "emit" and "exceptions_emitter" in norm(c.func.value):
+        if isinstance(c.func, ast.Attribute) and c.func.attr == "emit" and isinstance(c.func.value, ast.Name) and any(
+                isinstance(v, ast.Call) and (dotted(v.func) or "").split(".")[-1] == "ExceptionsEmitter" for _, v, _ in GL.defs.get(c.func.value.id, []) if v is not None):
             n_sites += 1
             kw = {k.arg: k.value for k in c.keywords}
             key = kw.get("client_package_name") or (c.args[2] if len(c.args) > 2 else None)
-            sub = f"{gen.module.relpath}:generate `{norm(c)[:70]}` registry key"
+            sub = f"{gen.module.relpath}:generate ExceptionsEmitter.emit call #{n_sites} registry key"
             if key is not None and isinstance(key, ast.Name) and key.id == "output_package":
                 rep.ok("R11.1", sub, "the client's full dotted package name (unique per client)", gen.loc(c))
             else:
